@@ -36,6 +36,8 @@ THEOREMS = [
     "catalogued_nullable_iff",
     # table-level PRIMARY KEY (c1, …, cn)
     "table_key_columns_not_null", "forceNotNull_mem", "forceNotNull_keeps_false", "tableCatalogOf_single",
+    # multi-row INSERT … VALUES
+    "insertValues_all_or_nothing", "specInsertValues_failed",
 ]
 
 # type-changing rewrite rules: the optimised plan (and the result) has another column type than
